@@ -28,7 +28,7 @@ COMPONENTS = {
 }
 ASSUMPTIONS = {'C09': ['the fake follows the confluent_kafka call contracts streamz uses (committed() -> offset -1001 when none; asynchronous commits applied later, lost if in flight at a crash)',
                        'at-least-once is asserted through its two halves: a commit is issued only for a completely processed batch, and a restarted consumer resumes at the durable committed offset; both for histories in which batches of a partition complete in order (the downstream pipelines generated are order preserving)',
-                       'no log retention (low watermark stays 0)']}
+                       'log retention is simulated by raising the low watermark; messages below it are gone for every consumer']}
 RULE = {'C09': 'histories (message arrival times per partition, partitions added mid-run, poll interval, batch size limit, '
                'reset policy, npartitions given/discovered, refresh on/off, pre-committed offsets), schedules (consumer '
                'latencies, commit application delay), broker faults (transient committed()/get_watermark_offsets failures) '
@@ -75,6 +75,7 @@ class FakeBroker:
     """The durable world: survives crashes."""
     def __init__(self, nparts):
         self.logs = {p: [] for p in range(nparts)}
+        self.low = {}                # p -> low watermark (retention deleted everything below)
         self.committed = {}          # (group, p) -> offset
         self.inflight = []           # asynchronous commits not applied yet
         self.frozen = False          # the consumer process is dead: its writes no longer land
@@ -86,6 +87,10 @@ class FakeBroker:
 
     def add_partition(self):
         self.logs[len(self.logs)] = []
+
+    def truncate(self, p, to):
+        if p in self.logs:
+            self.low[p] = max(self.low.get(p, 0), min(to, len(self.logs[p])))
 
     def high(self, p):
         return len(self.logs[p])
@@ -108,6 +113,7 @@ class Consumer:
             return None
         b = ENV['broker']
         p, off = self.assigned
+        off = max(off, b.low.get(p, 0))       # (offset out of range: the client resets to the log start)
         if off < b.high(p):
             k, v = b.logs[p][off]
             self.assigned = (p, off + 1)
@@ -126,8 +132,9 @@ class Consumer:
         if tp.partition not in b.logs:
             raise KafkaException('unknown partition')
         hi = b.high(tp.partition)
-        env['rec'].rec('watermark', tp.partition, 0, hi)
-        return (0, hi)
+        lo = b.low.get(tp.partition, 0)
+        env['rec'].rec('watermark', tp.partition, lo, hi)
+        return (lo, hi)
 
     def list_topics(self, topic=None, timeout=None):
         b = ENV['broker']
@@ -317,7 +324,7 @@ def run_incarnation(sc, broker, inc, t0, crash_at, pending_msgs):
             for m in metadata or []:
                 if 'ref' in m:
                     m['ref']._elem = _elem(p, lo)
-            rec.rec('kafka_emit', p, lo, hi, broker.high(p))
+            rec.rec('kafka_emit', p, lo, hi, broker.high(p), broker.low.get(p, 0))
             return orig_emit(x, metadata=metadata)
         source._emit = src_emit
         ctx.external = {0: stream}
@@ -334,6 +341,9 @@ def run_incarnation(sc, broker, inc, t0, crash_at, pending_msgs):
             if m.get('add_partition'):
                 broker.add_partition()
                 rec.rec('partition_added', len(broker.logs))
+            elif 'truncate' in m:
+                broker.truncate(m['truncate'], m['to'])
+                rec.rec('truncated', m['truncate'], broker.low.get(m['truncate'], 0))
             else:
                 off = broker.append(m['p'])
                 rec.rec('produced', m['p'], off)
@@ -404,6 +414,8 @@ def run_history(sc):
         broker.append(p)
     for p, off in (sc.get('precommitted') or {}).items():
         broker.committed[('g', int(p))] = off
+    for p, to in (sc.get('pre_truncate') or {}).items():
+        broker.truncate(int(p), to)
     msgs = [dict(m) for m in sorted(sc.get('messages', []), key=lambda m: m['t'])]
     crashes = list(sc.get('crashes') or [])
     incs = []
@@ -421,10 +433,14 @@ def run_history(sc):
             break
         # while the process is down the world goes on: messages due in the meantime are produced
         t0 = r['t_end'] + sc.get('downtime', 2)
+        for p, to in (sc.get('downtime_truncate') or {}).items():
+            broker.truncate(int(p), to)
         for m in msgs:
             if not m.get('done') and m['t'] <= t0:
                 if m.get('add_partition'):
                     broker.add_partition()
+                elif 'truncate' in m:
+                    broker.truncate(m['truncate'], m['to'])
                 else:
                     broker.append(m['p'])
                 m['done'] = True
@@ -453,6 +469,7 @@ def judge(sc, incs, broker):
             if e[2] != 'kafka_emit':
                 continue
             p, lo, hi, high_now = e[3], e[4], e[5], e[6]
+            low_now = e[7] if len(e) > 7 else 0
             if hi < lo:
                 V.append(Violation('C09', 'C09.range', e[0], 'incarnation %d partition %d: empty/inverted range %d..%d' % (i, p, lo, hi), node_op='from_kafka_batched'))
                 return V
@@ -463,7 +480,7 @@ def judge(sc, incs, broker):
                 V.append(Violation('C09', 'C09.watermark', e[0], 'incarnation %d partition %d: range %d..%d passes the high watermark %d' % (i, p, lo, hi, high_now), node_op='from_kafka_batched'))
                 return V
             if p in last_hi:
-                if lo != last_hi[p] + 1:
+                if lo != last_hi[p] + 1 and not (lo > last_hi[p] + 1 and lo == low_now):     # (a gap below the low watermark: retention)
                     V.append(Violation('C09', 'C09.range', e[0],
                                        'incarnation %d partition %d: range %d..%d follows a range ending at %d (%s)'
                                        % (i, p, lo, hi, last_hi[p], 'overlap' if lo <= last_hi[p] else 'gap'), node_op='from_kafka_batched'))
@@ -471,14 +488,14 @@ def judge(sc, incs, broker):
             else:
                 c = snap['committed'].get(('g', p), -1001)
                 if c >= 0:
-                    if lo != c:
+                    if lo != max(c, low_now):
                         V.append(Violation('C09', 'C09.start_position', e[0],
                                            'incarnation %d partition %d: committed offset is %d but the first range is %d..%d%s'
                                            % (i, p, c, lo, hi, ' (partition found by refresh)' if p >= nstatic else ''),
                                            node_op='from_kafka_batched', refreshed=p >= nstatic))
                         return V
                 elif p < nstatic:
-                    if reset == 'earliest' and lo != 0:
+                    if reset == 'earliest' and lo != low_now:
                         V.append(Violation('C09', 'C09.start_position', e[0],
                                            'incarnation %d partition %d: no committed offset, auto.offset.reset=earliest, first range %d..%d' % (i, p, lo, hi),
                                            node_op='from_kafka_batched', refreshed=False))
@@ -552,12 +569,12 @@ def judge(sc, incs, broker):
                 sorted(e[4] for e in r['res'].events if e[2] == 'commit_call' and e[3] == p) for r in incs)
             if not per_inc_sorted:
                 anchored = False
-            if h > 0 and first is not None and anchored and c != h:
+            if h > 0 and first is not None and anchored and max(c, broker.low.get(p, 0)) != h:
                 V.append(Violation('C09', 'C09.not_caught_up', len(last['res'].events) - 1,
                                    'at the end partition %d has %d messages, every consumer finished, but the committed offset is %d'
                                    % (p, h, c), node_op='from_kafka_batched'))
                 return V
-            if h > 0 and first is None and anchored and (c if c >= 0 else 0) < h:
+            if h > 0 and first is None and anchored and max(c if c >= 0 else 0, broker.low.get(p, 0)) < h:
                 V.append(Violation('C09', 'C09.lost_message', len(last['res'].events) - 1,
                                    'partition %d holds %d messages from offset %d on that were never delivered' % (p, h, max(c, 0)),
                                    node_op='from_kafka_batched'))
@@ -589,6 +606,8 @@ def evaluate(prop, sc, want_trace=False):
         out.probes['commit_applied'] = 1
     if any(e[2] == 'partition_added' for r in incs for e in r['res'].events):
         out.probes['partition_added'] = 1
+    if any(v > 0 for v in broker.low.values()):
+        out.probes['log_truncated'] = 1
     out.violations = judge(sc, incs, broker) if out.status not in ('step_cap',) else []
     out.nontrivial = nb >= 2
     if want_trace:
@@ -648,6 +667,13 @@ def generate(prop, rng, seed, index, tier):
             total += 1
             for _ in range(rng.randrange(0, 4)):
                 msgs.append({'t': t2 + rng.choice([0.25, 1, 2, 4]), 'p': total - 1})
+    pre_truncate = {}
+    if rng.random() < 0.2:
+        # retention: part of the log is gone before the consumer starts (and more may go while it is down);
+        # truncation racing with a running poll is not generated (get_message_batch without timeout would wait
+        # for ever for messages that were deleted under it - outside what C09 states)
+        for _ in range(rng.randrange(1, 3)):
+            pre_truncate[str(rng.randrange(nparts))] = rng.randrange(1, 6)
     precommitted = {}
     if rng.random() < 0.4:
         counts = {}
@@ -702,7 +728,8 @@ def generate(prop, rng, seed, index, tier):
           'partitions': nparts, 'npartitions': npartitions, 'refresh': refresh, 'reset': reset,
           'max_batch': rng.choice([1, 2, 3, 5, 10000]), 'keys': rng.random() < 0.2,
           'poll': rng.choice([0.5, 1, 2]), 'pre': pre, 'messages': msgs, 'precommitted': precommitted,
-          'faults': faults, 'graph': graph, 'crashes': [], 'downtime': rng.choice([0.5, 2, 5]),
+          'faults': faults, 'graph': graph, 'crashes': [], 'pre_truncate': pre_truncate,
+          'downtime_truncate': ({str(rng.randrange(nparts)): rng.randrange(1, 8)} if pre_truncate and rng.random() < 0.5 else {}), 'downtime': rng.choice([0.5, 2, 5]),
           'period': maxlat + 3, 'tiebreak': rng.choice(['fifo', 'lifo', 'seeded']),
           'tiebreak_seed': rng.randrange(1000), 'enumerate_all': big and rng.random() < 0.3}
     return sc
@@ -733,6 +760,11 @@ def shrink_candidates(sc):
         c = clone()
         del c['faults'][key]
         yield c
+    for key in ('pre_truncate', 'downtime_truncate'):
+        for k in list(sc.get(key) or {}):
+            c = clone()
+            del c[key][k]
+            yield c
     if sc.get('precommitted'):
         for k in list(sc['precommitted']):
             c = clone()
